@@ -469,7 +469,7 @@ func Check(tier string) int {
 			}
 		}
 	}
-	ev := rep.Evidence{PropertyID: "C16", Tier: tier, Seed: seed, Level: "model_checking",
+	ev := rep.Evidence{PropertyID: "C16", Tier: tier, Seed: seed, Level: "exploration",
 		Coverage: map[string]any{"states": r.Distinct, "transitions": r.Distinct, "traces_validated_against_impl": len(docs),
 			"samples": []any{map[string]any{"doc": docs[len(docs)/3], "taskfile": Render(docs[len(docs)/3])}},
 			"evaluations": len(docs), "distinct_nontrivial": len(docs),
